@@ -141,6 +141,9 @@ def h_special(sx):
     i = i if isinstance(i, int) else i.concretize()
     dtree = defaults[i]
     dtext = T.render_v2(dtree, at=bool(sx.params.get("at")))
+    if sx.params.get("config_list"):
+        # configured tags with several terms (multi-line "tags =" in the config file / several default_tags items)
+        dtext = T.render_v2_list(dtree, at=bool(sx.params.get("at")))
     for outer, otree in (("({config.tags})", dtree),
                          ("{config.tags} and x", ["and", dtree, ["lit", "x"]]),
                          ("not {config.tags}", ["not", dtree]),
@@ -177,12 +180,13 @@ def jobs(tier, seed):
     js.append(Job("v2.auto", "props.c07:h_v2", {"trees": trees[:24], "protocol": "auto"},
                   reach=["C07.check==formula"], min_paths=20, cost=100, validate=30, closure=False))
     defaults = [["lit", "a"], ["or", ["lit", "a"], ["lit", "b.c"]], ["not", ["lit", "a"]], ["and", ["lit", "a"], ["not", ["wild", "a.*"]]],
-                ["or", ["not", ["lit", "a"]], ["and", ["lit", "b.c"], ["wild", "[ab]c"]]], ["not", ["or", ["lit", "a"], ["lit", "b.c"]]]]
+                ["or", ["not", ["lit", "a"]], ["and", ["lit", "b.c"], ["wild", "[ab]c"]]], ["not", ["or", ["lit", "a"], ["lit", "b.c"]]],
+                ["and", ["or", ["lit", "a"], ["lit", "b.c"]], ["lit", "x-y=1"]]]
     for at in (False, True):
         for as_list in (False, True):
             for proto in ("v2", "auto"):
                 js.append(Job("special.at%d.list%d.%s" % (at, as_list, proto), "props.c07:h_special",
-                              {"defaults": defaults, "at": at, "as_list": as_list, "protocol": proto},
+                              {"defaults": defaults, "at": at, "as_list": as_list, "protocol": proto, "config_list": bool(as_list)},
                               reach=["C07.empty-selects-everything", "C07.config-tags-substitution"], min_paths=6, cost=50,
                               validate=30, closure=False))
     return js
